@@ -1,7 +1,7 @@
 (* Corr.v — comparison of model outputs with the implementation's observables,
    evaluated by vm_compute from generated case files (definitions only). *)
 From Coq Require Import ZArith List Bool Lia.
-From Dendro Require Import Base Tree Grid Criteria Compute Index Prune PruneGhost Newick IO.
+From Dendro Require Import Base Tree Grid Criteria Compute Index Prune PruneGhost Newick IO DEq.
 Import ListNotations.
 Open Scope Z_scope.
 
@@ -94,3 +94,7 @@ Definition fmt_eqb (a b : IO.fmt) : bool :=
 Definition choose_case : Type := option IO.fmt * IO.extension * IO.content * bool * option IO.fmt.
 Definition choose_ok (c : choose_case) : bool :=
   let '(f, e, ct, r, expected) := c in option_eqb fmt_eqb (IO.choose f e ct r) expected.
+
+(* ---- equality (C20): (a, other, observed result of a == other) *)
+Definition deq_case : Type := DEq.dview * option DEq.dview * bool.
+Definition deq_ok (c : deq_case) : bool := let '(a, o, r) := c in Bool.eqb (DEq.deq a o) r.
